@@ -151,6 +151,38 @@ def atomic(ex, op, args, fr, e):
   return r
 
 
+def _tile_target(a):
+  """array operand of a tile load/store: ArrRef (whole array) or RowView (leading indices fixed)"""
+  if isinstance(a, ArrRef):
+    return a, ()
+  if isinstance(a, RowView):
+    return a.base, tuple(a.lead)
+  raise Unsupported("tile operand is not an array")
+
+
+def tile_op(ex, name, args, kw, fr, e):
+  """Tile intrinsics are NOT modelled functionally (DESIGN 2.2): a tile value is opaque.
+  tile_load(a[w], ...) is logged as a read of row w, tile_store / tile_atomic_add as a write
+  of row w (only the leading indices are known), and the written array's content is havocked.
+  That is enough for the index/guard schemas (ISOLATION, MODULO, FRAME, DONE_GUARD)."""
+  from .sym import Access
+
+  if name in ("tile_load", "tile_load_indexed"):
+    ref, lead = _tile_target(args[0])
+    ex.st.log.append(Access("r", ref, lead, ex.guard_now(fr), e.lineno, bound=tuple(ex.st.bound), op="tile"))
+    return Opaque("tile")
+  if name in ("tile_store", "tile_atomic_add", "tile_scatter_add", "tile_scatter_masked", "tile_store_indexed"):
+    ref, lead = _tile_target(args[0])
+    ex.st.log.append(Access("w" if name == "tile_store" else "atomic", ref, lead, ex.guard_now(fr), e.lineno, bound=tuple(ex.st.bound), op="tile"))
+    ex.havoc_array(ref, "tile store")
+    return None
+  if name in ("tile_extract",):
+    return ex.fresh("tile_elem", "float")
+  if name in ("tile_sum", "tile_reduce", "tile_min", "tile_max", "tile_argmin", "tile_argmax"):
+    return Opaque("tile")
+  return Opaque("tile")
+
+
 def call_builtin(ex, name, args, kw, fr, e):
   A = ex.ar
   if name.startswith("atomic_"):
@@ -176,10 +208,16 @@ def call_builtin(ex, name, args, kw, fr, e):
     return sqrt(ex, args[0])
   if name == "abs":
     return _abs(ex, args[0])
-  if name == "min":
-    return _minmax(ex, args[0], args[1], True)
-  if name == "max":
-    return _minmax(ex, args[0], args[1], False)
+  if name in ("min", "max"):
+    is_min = name == "min"
+    if len(args) == 1 and isinstance(args[0], Vec):
+      r = args[0].comps[0]
+      for c in args[0].comps[1:]:
+        r = _minmax(ex, r, c, is_min)
+      return r
+    if len(args) != 2:
+      raise Unsupported("wp." + name + " arity")
+    return _minmax(ex, args[0], args[1], is_min)
   if name == "clamp":
     x, lo, hi = args
     return _minmax(ex, _minmax(ex, x, lo, False), hi, True)
@@ -254,11 +292,24 @@ def call_builtin(ex, name, args, kw, fr, e):
     return False  # T2: reals
   if name == "quat_rotate":
     raise Unsupported("wp.quat_rotate")
+  if name == "quat_to_matrix":
+    # warp quaternion layout: (x, y, z, w)
+    q = args[0]
+    x, y, z, w = q.comps
+    m = lambda a, b: A.binop(MUL, a, b)
+    two = lambda a: A.binop(MUL, 2.0, a)
+    s_ = lambda a, b: A.binop(SUB, a, b)
+    a_ = lambda a, b: A.binop(ADD, a, b)
+    return Vec((3, 3), [
+      s_(1.0, two(a_(m(y, y), m(z, z)))), two(s_(m(x, y), m(z, w))), two(a_(m(x, z), m(y, w))),
+      two(a_(m(x, y), m(z, w))), s_(1.0, two(a_(m(x, x), m(z, z)))), two(s_(m(y, z), m(x, w))),
+      two(s_(m(x, z), m(y, w))), two(a_(m(y, z), m(x, w))), s_(1.0, two(a_(m(x, x), m(y, y)))),
+    ])
   if name == "mul":
     return ex.binop(MUL, args[0], args[1])
   if name == "div":
     return ex.binop(DIV, args[0], args[1])
-  if name == "static":
+  if name in ("static", "constant"):
     return args[0]
   if name in ("vector", "matrix"):
     raise Unsupported("wp." + name)
@@ -272,7 +323,9 @@ def call_builtin(ex, name, args, kw, fr, e):
     return Vec((r, len(cols)), [cols[j].comps[i] for i in range(r) for j in range(len(cols))])
   if name == "block_dim":
     return z3.Int("block_dim")
-  if name.startswith("tile") or name.startswith("bvh") or name.startswith("mesh") or name.startswith("texture"):
+  if name.startswith("tile"):
+    return tile_op(ex, name, args, kw, fr, e)
+  if name.startswith("bvh") or name.startswith("mesh") or name.startswith("texture"):
     raise Unsupported("intrinsic wp." + name)
   if name == "expect_eq":
     return None
